@@ -1,4 +1,5 @@
 import Pymc.Model.Fallback
+import Pymc.Model.FallbackHist
 /-!
 # C18 — FallbackClient: reads fall through in order, writes touch only the primary
 
@@ -72,3 +73,316 @@ example : firstHit (fun (o : Option Nat) => o.isSome) [none, some 0, some 5, non
   decide
 example : firstHit (fun (d : List Nat) => !d.isEmpty) [[], [], [3]] = (some [3], 3) := by decide
 end Fallback
+
+/-!
+# C18 over histories — one `FallbackClient` object, any sequence of calls and reconfigurations
+
+Model: `FallbackHist.run` (Pymc/Model/FallbackHist.lean).  Every theorem below quantifies over the initial
+list of caches `s0`, the whole history `h` and a position `n` in it; the list in force at step `n` is
+`lastAssigned s0 (h.take n)` — the list assigned last before step `n`, the initial one if none was.
+-/
+namespace FallbackHist
+
+/-- C18 (histories): the list of caches changes only by `setCaches` — one step -/
+theorem C18_hist_list_changes_only_by_setCaches (s : List Cache) (op : Op)
+    (hop : ∀ l, op ≠ .setCaches l) : (step s op).1 = s := by
+  cases op with
+  | read k args => rfl
+  | write m given =>
+    simp only [step]
+    split
+    · rfl
+    · split <;> rfl
+  | close => rfl
+  | quit => rfl
+  | stats => rfl
+  | setCaches l => exact absurd rfl (hop l)
+
+/-- C18 (histories): `close`, `quit` and `stats` never change the list of caches -/
+theorem C18_hist_nondata_keep_list (s : List Cache) :
+    (step s .close).1 = s ∧ (step s .quit).1 = s ∧ (step s .stats).1 = s := ⟨rfl, rfl, rfl⟩
+
+/-- C18 (histories): neither does any read or any mutating operation, whatever its arguments and outcome -/
+theorem C18_hist_data_ops_keep_list (s : List Cache) :
+    (∀ k args, (step s (.read k args)).1 = s) ∧ (∀ m given, (step s (.write m given)).1 = s) :=
+  ⟨fun k args => C18_hist_list_changes_only_by_setCaches s _ (by intro l h; cases h),
+   fun m given => C18_hist_list_changes_only_by_setCaches s _ (by intro l h; cases h)⟩
+
+/-- C18 (histories): after any history the list of caches is the one assigned last, the initial one if
+none was — nothing else in the history matters -/
+theorem C18_hist_state_is_last_assigned (s0 : List Cache) (h : List Op) :
+    (run s0 h).1 = lastAssigned s0 h := by
+  induction h generalizing s0 with
+  | nil => rfl
+  | cons op rest ih =>
+    simp only [run, lastAssigned, List.foldl_cons]
+    rw [ih]
+    cases op with
+    | setCaches l => rfl
+    | read k args => rfl
+    | close => rfl
+    | quit => rfl
+    | stats => rfl
+    | write m given =>
+      rw [C18_hist_list_changes_only_by_setCaches s0 _ (by intro l h; cases h)]; rfl
+
+/-- C18 (histories): a history without `setCaches` leaves the list as it was -/
+theorem C18_hist_no_setCaches_keeps_list (s0 : List Cache) (h : List Op) (hno : NoSetCaches h) :
+    (run s0 h).1 = s0 := by
+  induction h generalizing s0 with
+  | nil => rfl
+  | cons op rest ih =>
+    simp only [run]
+    rw [C18_hist_list_changes_only_by_setCaches s0 op (fun l => hno op (by simp) l)]
+    exact ih s0 (fun o ho => hno o (by simp [ho]))
+
+/-- C18 (histories): after `… setCaches l …` with no later `setCaches`, the list is exactly `l`,
+whatever came before and whatever data / non-data operations came after -/
+theorem C18_hist_state_after_last_setCaches (s0 : List Cache) (h1 h2 : List Op) (l : List Cache)
+    (hno : NoSetCaches h2) : (run s0 (h1 ++ .setCaches l :: h2)).1 = l := by
+  induction h1 generalizing s0 with
+  | nil => simpa [run, step] using C18_hist_no_setCaches_keeps_list l h2 hno
+  | cons op rest ih => simpa [run] using ih (step s0 op).1
+
+/-- C18 (histories): every step produces exactly one output -/
+theorem C18_hist_outputs_length (s0 : List Cache) (h : List Op) : (run s0 h).2.length = h.length := by
+  induction h generalizing s0 with
+  | nil => rfl
+  | cons op rest ih => simp [run, ih]
+
+/-- **C18 (histories, main)**: the output of step `n` of any history is the output of that one operation on
+the list of caches assigned last before it; earlier reads, writes, closes — and their outcomes — leave no trace -/
+theorem C18_hist_step_output (s0 : List Cache) (h : List Op) (n : Nat) (op : Op) (hn : h[n]? = some op) :
+    (run s0 h).2[n]? = some (step (lastAssigned s0 (h.take n)) op).2 := by
+  induction h generalizing s0 n with
+  | nil => simp at hn
+  | cons o rest ih =>
+    cases n with
+    | zero =>
+      simp at hn; subst hn
+      simp [run, lastAssigned]
+    | succ n =>
+      have hn' : rest[n]? = some op := by simpa using hn
+      have h1 := ih (step s0 o).1 n hn'
+      have h2 : lastAssigned s0 (o :: rest.take n) = lastAssigned (step s0 o).1 (rest.take n) := by
+        simp only [lastAssigned, List.foldl_cons]
+        congr 1
+        cases o with
+        | setCaches l => rfl
+        | read k args => rfl
+        | close => rfl
+        | quit => rfl
+        | stats => rfl
+        | write m given =>
+          rw [C18_hist_list_changes_only_by_setCaches s0 _ (by intro l h; cases h)]
+      simpa [run, h2] using h1
+
+/-- C18: the hit rule per read kind — `is not None` for get/gets, truthiness for get_many/gets_many -/
+theorem C18_hist_hit_rule (a : Ans) :
+    (hit .get a = true ↔ a ≠ .none) ∧ (hit .gets a = true ↔ a ≠ .none) ∧
+    (hit .getMany a = true ↔ ∃ v, a = .truthy v) ∧ (hit .getsMany a = true ↔ ∃ v, a = .truthy v) := by
+  cases a <;> simp [hit, Ans.isNotNone, Ans.isTruthy]
+
+/-- C18 (one read on any list): log and result when cache `i` is the first with a hit -/
+theorem C18_hist_readLoop_first_hit (k : ReadKind) (args : List String) (s : List Cache) (i : Nat) (c : Cache)
+    (hi : s[i]? = some c) (hhit : hit k (c.answer k args) = true)
+    (hbefore : ∀ j b, j < i → s[j]? = some b → hit k (b.answer k args) = false) :
+    readLoop k args s = ⟨(s.take (i + 1)).map (fun b => ⟨b.id, k.name, args⟩), .answer (c.answer k args)⟩ := by
+  induction s generalizing i with
+  | nil => simp at hi
+  | cons x rest ih =>
+    cases i with
+    | zero =>
+      simp at hi; subst hi
+      simp [readLoop, hhit]
+    | succ i =>
+      have hx : hit k (x.answer k args) = false := hbefore 0 x (by omega) (by simp)
+      have := ih i (by simpa using hi) (fun j b hj hb => hbefore (j + 1) b (by omega) (by simpa using hb))
+      simp [readLoop, hx, this]
+
+/-- C18 (one read on any list): log and result when no cache has a hit -/
+theorem C18_hist_readLoop_all_miss (k : ReadKind) (args : List String) (s : List Cache)
+    (hmiss : ∀ b ∈ s, hit k (b.answer k args) = false) :
+    readLoop k args s = ⟨s.map (fun b => ⟨b.id, k.name, args⟩), fallThrough k⟩ := by
+  induction s with
+  | nil => simp [readLoop]
+  | cons x rest ih =>
+    have hx : hit k (x.answer k args) = false := hmiss x (by simp)
+    have := ih (fun b hb => hmiss b (by simp [hb]))
+    simp [readLoop, hx, this]
+
+/-- **C18 (histories, reads)**: in any history, a read at step `n` consults exactly the prefix of the CURRENT
+list of caches (the one assigned last before step `n`) up to and including the first cache `i` whose answer is a
+hit — each once, in order, with the caller's argument — and returns that cache's answer unchanged. -/
+theorem C18_hist_read_first_hit (s0 : List Cache) (h : List Op) (n : Nat) (k : ReadKind) (args : List String)
+    (i : Nat) (c : Cache)
+    (hn : h[n]? = some (.read k args))
+    (hi : (lastAssigned s0 (h.take n))[i]? = some c) (hhit : hit k (c.answer k args) = true)
+    (hbefore : ∀ j b, j < i → (lastAssigned s0 (h.take n))[j]? = some b → hit k (b.answer k args) = false) :
+    (run s0 h).2[n]? =
+      some ⟨((lastAssigned s0 (h.take n)).take (i + 1)).map (fun b => ⟨b.id, k.name, args⟩),
+            .answer (c.answer k args)⟩ := by
+  rw [C18_hist_step_output s0 h n _ hn]
+  simp only [step]
+  rw [C18_hist_readLoop_first_hit k args _ i c hi hhit hbefore]
+
+/-- **C18 (histories, reads, all miss)**: if no cache of the current list has a hit, the read consults every
+cache of the current list once, in order, and returns `None` (get/gets) or `[]` (get_many/gets_many). -/
+theorem C18_hist_read_all_miss (s0 : List Cache) (h : List Op) (n : Nat) (k : ReadKind) (args : List String)
+    (hn : h[n]? = some (.read k args))
+    (hmiss : ∀ b ∈ lastAssigned s0 (h.take n), hit k (b.answer k args) = false) :
+    (run s0 h).2[n]? =
+      some ⟨(lastAssigned s0 (h.take n)).map (fun b => ⟨b.id, k.name, args⟩), fallThrough k⟩ ∧
+    fallThrough .get = .none ∧ fallThrough .gets = .none ∧
+    fallThrough .getMany = .emptyList ∧ fallThrough .getsMany = .emptyList := by
+  refine ⟨?_, rfl, rfl, rfl, rfl⟩
+  rw [C18_hist_step_output s0 h n _ hn]
+  simp only [step]
+  rw [C18_hist_readLoop_all_miss k args _ hmiss]
+
+/-- C18 (histories): the history-level read loop is the single-call model `Fallback.firstHit` on the answers
+of the current list: same number of caches consulted, same answer -/
+theorem C18_hist_read_agrees_with_firstHit (k : ReadKind) (args : List String) (s : List Cache) :
+    (readLoop k args s).log =
+      (s.take (Fallback.firstHit (hit k) (s.map (·.answer k args))).2).map (fun b => ⟨b.id, k.name, args⟩) ∧
+    (readLoop k args s).result =
+      (match (Fallback.firstHit (hit k) (s.map (·.answer k args))).1 with
+       | some a => .answer a
+       | none => fallThrough k) := by
+  induction s with
+  | nil => simp [readLoop, Fallback.firstHit]
+  | cons x rest ih =>
+    by_cases hx : hit k (x.answer k args) = true
+    · simp [readLoop, Fallback.firstHit, hx]
+    · simp only [Bool.not_eq_true] at hx
+      simp [readLoop, Fallback.firstHit, hx, ih.1, ih.2]
+
+/-- **C18 (histories, writes)**: in any history, a mutating operation at step `n` calls exactly the FIRST cache
+of the current list, once, with the method of the same name and the bound arguments `args` — and no other cache. -/
+theorem C18_hist_write_first_only (s0 : List Cache) (h : List Op) (n : Nat) (m : WriteKind)
+    (given : List (Option String)) (args : List String) (c : Cache) (rest : List Cache)
+    (hn : h[n]? = some (.write m given)) (hb : bindArgs m.params given = some args)
+    (hs : lastAssigned s0 (h.take n) = c :: rest) :
+    (run s0 h).2[n]? = some ⟨[⟨c.id, m.name, args⟩], .none⟩ := by
+  rw [C18_hist_step_output s0 h n _ hn]
+  simp [step, hb, hs]
+
+/-- C18 (writes, arguments): the bound arguments are one per parameter, in the order of the parameter list:
+the caller's value where one was given, else the default (`expire=0`, `noreply=True`, `delay=0`) -/
+theorem C18_hist_write_args_spec (ps : List (String × Option String)) (given : List (Option String))
+    (args : List String) (hb : bindArgs ps given = some args) :
+    args.length = ps.length ∧ given.length = ps.length ∧
+    ∀ (j : Nat) (p : String × Option String) (g : Option String),
+      ps[j]? = some p → given[j]? = some g → args[j]? = pick g p.2 := by
+  induction ps generalizing given args with
+  | nil =>
+    cases given with
+    | nil => simp [bindArgs] at hb; subst hb; simp
+    | cons g gs => simp [bindArgs] at hb
+  | cons p ps ih =>
+    cases given with
+    | nil => simp [bindArgs] at hb
+    | cons g gs =>
+      obtain ⟨pn, pd⟩ := p
+      simp only [bindArgs] at hb
+      split at hb
+      · rename_i v rest' hv hr
+        simp at hb; subst hb
+        obtain ⟨h1, h2, h3⟩ := ih gs rest' hr
+        refine ⟨by simp [h1], by simp [h2], ?_⟩
+        intro j p g' hp hg
+        cases j with
+        | zero => simp at hp hg; subst hp; subst hg; simpa using hv.symm
+        | succ j => simpa using h3 j p g' (by simpa using hp) (by simpa using hg)
+      · simp at hb
+
+/-- C18 (writes, arguments): when the caller gives every argument, they are forwarded unchanged and in order -/
+theorem C18_hist_write_all_given (ps : List (String × Option String)) (vals : List String)
+    (hl : vals.length = ps.length) : bindArgs ps (vals.map some) = some vals := by
+  induction ps generalizing vals with
+  | nil => cases vals with
+    | nil => rfl
+    | cons v vs => simp at hl
+  | cons p ps ih =>
+    cases vals with
+    | nil => simp at hl
+    | cons v vs =>
+      obtain ⟨pn, pd⟩ := p
+      simp [bindArgs, pick, ih vs (by simpa using hl)]
+
+/-- C18 (writes, defaults): the forwarded positional arguments when the caller gives only the required ones -/
+theorem C18_hist_write_defaults_table :
+    bindArgs WriteKind.set.params [some "k", some "v", none, none] = some ["k", "v", "0", "True"] ∧
+    bindArgs WriteKind.add.params [some "k", some "v", none, none] = some ["k", "v", "0", "True"] ∧
+    bindArgs WriteKind.replace.params [some "k", some "v", none, none] = some ["k", "v", "0", "True"] ∧
+    bindArgs WriteKind.append.params [some "k", some "v", none, none] = some ["k", "v", "0", "True"] ∧
+    bindArgs WriteKind.prepend.params [some "k", some "v", none, none] = some ["k", "v", "0", "True"] ∧
+    bindArgs WriteKind.cas.params [some "k", some "v", some "c", none, none] = some ["k", "v", "c", "0", "True"] ∧
+    bindArgs WriteKind.delete.params [some "k", none] = some ["k", "True"] ∧
+    bindArgs WriteKind.incr.params [some "k", some "v", none] = some ["k", "v", "True"] ∧
+    bindArgs WriteKind.decr.params [some "k", some "v", none] = some ["k", "v", "True"] ∧
+    bindArgs WriteKind.touch.params [some "k", none, none] = some ["k", "0", "True"] ∧
+    bindArgs WriteKind.flushAll.params [none, none] = some ["0", "True"] := by decide
+
+/-- C18 (histories, writes that cannot be made): a call that cannot be bound (`TypeError`), or a mutating
+operation while the list of caches is empty (`IndexError` from `caches[0]`), reaches no cache at all -/
+theorem C18_hist_write_failed_touches_nothing (s0 : List Cache) (h : List Op) (n : Nat) (m : WriteKind)
+    (given : List (Option String)) (hn : h[n]? = some (.write m given)) :
+    (bindArgs m.params given = none → (run s0 h).2[n]? = some ⟨[], .typeError⟩) ∧
+    (∀ args, bindArgs m.params given = some args → lastAssigned s0 (h.take n) = [] →
+      (run s0 h).2[n]? = some ⟨[], .indexError⟩) := by
+  rw [C18_hist_step_output s0 h n _ hn]
+  refine ⟨fun hb => by simp [step, hb], fun args hb hs => by simp [step, hb, hs]⟩
+
+/-- **C18 (histories, close)**: `close` at step `n` calls `close()` on every cache of the current list, once
+each, in order, and nothing else -/
+theorem C18_hist_close_calls_every_cache_in_order (s0 : List Cache) (h : List Op) (n : Nat)
+    (hn : h[n]? = some .close) :
+    (run s0 h).2[n]? = some ⟨(lastAssigned s0 (h.take n)).map (fun b => ⟨b.id, "close", []⟩), .none⟩ := by
+  rw [C18_hist_step_output s0 h n _ hn]; rfl
+
+/-- **C18 (histories, quit / stats)**: they call no cache and return `None` -/
+theorem C18_hist_quit_stats_do_nothing (s0 : List Cache) (h : List Op) (n : Nat) (op : Op)
+    (hop : op = .quit ∨ op = .stats) (hn : h[n]? = some op) :
+    (run s0 h).2[n]? = some ⟨[], .none⟩ := by
+  rw [C18_hist_step_output s0 h n _ hn]
+  rcases hop with rfl | rfl <;> rfl
+
+/-- C18 (histories): inserting or deleting `close` / `quit` / `stats` anywhere before step `n` changes neither
+the list in force at step `n` nor — by `C18_hist_step_output` — what step `n` does -/
+theorem C18_hist_nondata_ops_are_invisible_later (s0 : List Cache) (h1 h2 : List Op) (op : Op)
+    (hop : op = .close ∨ op = .quit ∨ op = .stats) :
+    lastAssigned s0 (h1 ++ op :: h2) = lastAssigned s0 (h1 ++ h2) := by
+  simp only [lastAssigned, List.foldl_append, List.foldl_cons]
+  rcases hop with rfl | rfl | rfl <;> rfl
+
+/-! non-vacuity (`exA … exHist` are defined at the end of the model file): caches 0, 1, 2; cache 1 answers the
+single-key reads with a falsy object, cache 2 answers everything with a truthy one; then the application promotes a
+new empty cache 9 in front, later empties the list -/
+example : (run [exA, exB, exC] exHist).2 =
+    [⟨[⟨0, "get", ["k"]⟩, ⟨1, "get", ["k"]⟩], .answer (.falsy 1)⟩,
+     ⟨[⟨0, "get_many", ["[k|j]"]⟩, ⟨1, "get_many", ["[k|j]"]⟩, ⟨2, "get_many", ["[k|j]"]⟩], .answer (.truthy 2)⟩,
+     ⟨[⟨0, "set", ["k", "v", "0", "True"]⟩], .none⟩,
+     ⟨[⟨0, "close", []⟩, ⟨1, "close", []⟩, ⟨2, "close", []⟩], .none⟩,
+     ⟨[], .none⟩,
+     ⟨[], .none⟩,
+     ⟨[⟨9, "gets", ["k"]⟩, ⟨0, "gets", ["k"]⟩, ⟨1, "gets", ["k"]⟩], .answer (.falsy 1)⟩,
+     ⟨[⟨9, "cas", ["k", "v", "7", "60", "True"]⟩], .none⟩,
+     ⟨[], .none⟩,
+     ⟨[⟨9, "close", []⟩, ⟨0, "close", []⟩, ⟨1, "close", []⟩, ⟨2, "close", []⟩], .none⟩,
+     ⟨[], .none⟩,
+     ⟨[], .none⟩,
+     ⟨[], .emptyList⟩,
+     ⟨[], .indexError⟩,
+     ⟨[], .none⟩,
+     ⟨[], .typeError⟩] := by decide
+/-- the list after the history and at three points inside it (by identifiers) -/
+example : (run [exA, exB, exC] exHist).1.map (·.id) = [] ∧
+    (lastAssigned [exA, exB, exC] (exHist.take 5)).map (·.id) = [0, 1, 2] ∧
+    (lastAssigned [exA, exB, exC] (exHist.take 6)).map (·.id) = [9, 0, 1, 2] ∧
+    (lastAssigned [exA, exB, exC] (exHist.take 10)).map (·.id) = [9, 0, 1, 2] := by decide
+/-- the hypotheses of `C18_hist_read_first_hit` are satisfiable: step 6 (`gets` after the promotion), hit in position 2 -/
+example : ((lastAssigned [exA, exB, exC] (exHist.take 6))[2]?).map (·.id) = some 1 ∧
+    hit .gets (exB.answer .gets ["k"]) = true ∧ hit .gets (exN.answer .gets ["k"]) = false ∧
+    hit .gets (exA.answer .gets ["k"]) = false ∧ hit .getsMany (exB.answer .gets ["k"]) = false := by decide
+end FallbackHist
